@@ -342,3 +342,23 @@ PROPS['C04'] = dict(
     trusted_base=EG_TRUST + ['the harness-side construction of the expected right instance (pattern instantiation and slot renaming) '],
     assumptions=COMMON_ASSUME + ['scope as stated in the property: no class with a redundant slot, bound names bound once and not used free'],
 )
+
+PROPS['C20'] = dict(
+    level='other',
+    module='SlotVerif.Props.C20',
+    suites=[dict(name='repro', variant='default', shrink=False, quick=dict(count=160, timeout=900), thorough=dict(count=3000, timeout=3000)),
+            dict(name='repro', variant='explanations', shrink=False, quick=dict(count=40, timeout=900), thorough=dict(count=600, timeout=3000))],
+    rule='corr.replay: each history (insertions, unions from the C01 generator, extra arithmetic terms, 0-4 pool rules for 1-2 rewrite '
+         'iterations, then find of all handles, enodes of all classes, ematch_all of six patterns in returned order, extraction of '
+         'every class, the measure) is executed 4 times in fresh threads started at different times with different allocation '
+         'prefixes while 4 other threads build unrelated e-graphs, intern symbols and slot names and allocate; the raw transcripts '
+         '(Debug/Display output: class ids, invocations, slot names, match lists, extracted terms — nothing sorted or canonicalised) '
+         'are compared byte for byte; every fourth history is additionally replayed in a second process and the transcript hashes '
+         'compared. non-trivial = a rewrite iteration changed something and at least one match was listed; distinct = by hash of the case',
+    explanation='No theorem can cover this property: a Lean model is deterministic by construction, and the property is about exactly what '
+                'the models abstract away (hash seeds, addresses, thread-local and global interning state, scheduling). The check is a '
+                'concurrency replay (exploration), reported under level "other"; it is at the same time the per-run validation of the '
+                'assumption all other correspondences make, namely that the implementation is a function of its operation list.',
+    trusted_base=['no model: raw transcripts of the implementation are compared with each other'],
+    assumptions=COMMON_ASSUME + ['EGraph::dump() prints to stdout and is not captured; the snapshot hook is not used either (it sorts its lines)'],
+)
